@@ -458,6 +458,103 @@ pub fn run(report: &Report, thorough: bool) -> Evidence {
         },
         |_| (),
     );
+    // ---- plan 4: consonant class sweep on the REAL layout (Probhat). The unit sets above have two or three bases; here EVERY key of
+    // the layout (both planes) whose value is one consonant - the nukta letters and khanda-ta included - carries each left-standing
+    // sign and each two-part sign, alone and as the second syllable of a word, typewriter order with the option on against
+    // Unicode order with it off, under all 16 settings of the other helpers.
+    let sweep_words = AtomicU64::new(0);
+    let sweep_consonants: usize;
+    {
+        let probhat = crate::drv::probhat();
+        let v: serde_json::Value = serde_json::from_str(&std::fs::read_to_string(&probhat).expect("Probhat")).expect("json");
+        let lay = v["layout"].as_object().expect("layout");
+        let mut cons: Vec<(Ev, char)> = vec![];
+        for kd in crate::keys::KEYS.iter().filter(|k| !k.numpad) {
+            for (plane, m) in [("Normal", 0u8), ("AltGr", 2u8)] {
+                if let Some(val) = lay.get(&format!("Key_{}_{}", kd.entry.unwrap(), plane)).and_then(|x| x.as_str()) {
+                    let mut cs = val.chars();
+                    if let (Some(c), None) = (cs.next(), cs.next()) {
+                        if (crate::bn::is_consonant(c) || "\u{09CE}\u{09DC}\u{09DD}\u{09DF}".contains(c)) && !cons.iter().any(|(_, x)| *x == c) {
+                            cons.push((Ev::Key { code: kd.code, m, sel: 0 }, c));
+                        }
+                    }
+                }
+            }
+        }
+        sweep_consonants = cons.len();
+        let inv = crate::data::InverseLayout::load(&probhat);
+        let key_of = |c: char| inv.key(c).cloned().expect("sign key in Probhat");
+        // (typewriter: before the consonant, after it; Unicode: after the consonant)
+        let signs: Vec<(Vec<Ev>, Vec<Ev>, Vec<Ev>, &str)> = vec![
+            (vec![key_of('\u{09BF}')], vec![], vec![key_of('\u{09BF}')], "i"),
+            (vec![key_of('\u{09C7}')], vec![], vec![key_of('\u{09C7}')], "e"),
+            (vec![key_of('\u{09C8}')], vec![], vec![key_of('\u{09C8}')], "oi"),
+            (vec![key_of('\u{09C7}')], vec![key_of('\u{09BE}')], vec![key_of('\u{09CB}')], "o(e..aa)"),
+            (vec![key_of('\u{09C7}')], vec![key_of('\u{09CC}')], vec![key_of('\u{09CC}')], "ou(e..ou)"),
+        ];
+        let prefixes: Vec<Vec<Ev>> = vec![vec![], vec![key_of('\u{09AC}'), key_of('\u{09BE}')]];
+        par_for(
+            16,
+            1,
+            |w| scratch_xdg(&format!("c14p4-{}", w)),
+            |xdg, setting| {
+                let mut o = Opts::fixed(&probhat, "", xdg);
+                o.vowel = setting & 1 != 0;
+                o.chandra = setting & 2 != 0;
+                o.kar = setting & 4 != 0;
+                o.reph = setting & 8 != 0;
+                o.smart = false;
+                let mut oa = o.clone();
+                oa.karorder = true;
+                let mut a = Ctx::new(&oa).expect("ctx");
+                let mut b = Ctx::new(&o).expect("ctx");
+                a.with_pre = false;
+                b.with_pre = false;
+                for (ck, c) in &cons {
+                    for (pre, post, uni, label) in &signs {
+                        for pf in &prefixes {
+                            let mut tw: Vec<Ev> = pf.clone();
+                            tw.extend(pre.iter().cloned());
+                            tw.push(ck.clone());
+                            tw.extend(post.iter().cloned());
+                            let mut un: Vec<Ev> = pf.clone();
+                            un.push(ck.clone());
+                            un.extend(uni.iter().cloned());
+                            let _ = a.apply(&Ev::Finish);
+                            let _ = b.apply(&Ev::Finish);
+                            let mut ok = true;
+                            for e in &tw {
+                                if a.apply(e).is_err() {
+                                    ok = false;
+                                }
+                            }
+                            for e in &un {
+                                if b.apply(e).is_err() {
+                                    ok = false;
+                                }
+                            }
+                            if !ok {
+                                continue; // a failing call is C01's business
+                            }
+                            sweep_words.fetch_add(1, Ordering::Relaxed);
+                            let ta = read_state(&a);
+                            let tb = read_state(&b);
+                            if ta.buf != tb.buf || ta.pending != 0 {
+                                report.add(
+                                    Violation::new("C14", "order-mismatch", &format!("consonant-sweep:{}:{}", crate::bn::esc(&c.to_string()), label))
+                                        .opts(&oa)
+                                        .events(&tw)
+                                        .feat("consonant", crate::bn::esc(&c.to_string()))
+                                        .detail(format!("consonant {:?} with sign {}: typewriter order with the option on gives {:?} (waiting sign {}), Unicode order with it off gives {:?}", c, label, ta.buf, ta.pending, tb.buf)),
+                                );
+                            }
+                        }
+                    }
+                }
+            },
+            |_| (),
+        );
+    }
     let mut ev = Evidence::new("C14", &report.tier, "model_checking");
     let nwords = words.load(Ordering::Relaxed);
     ev.set("states", texts.lock().unwrap().len().max(1));
@@ -465,6 +562,7 @@ pub fn run(report: &Report, thorough: bool) -> Evidence {
     ev.set("traces_validated_against_impl", nwords);
     ev.set("words_compared", nwords);
     ev.set("waiting_sign_points_checked", waiting.load(Ordering::Relaxed));
+    ev.set("consonant_class_sweep", json!({"layout": "Probhat", "consonants": sweep_consonants, "sign_typings": 5, "positions": 2, "settings": 16, "words_compared": sweep_words.load(Ordering::Relaxed)}));
     ev.set("unit_set_full", full_units.len());
     ev.set("unit_set_reduced", small_units.len());
     ev.set("vowel_by_sign_key_units", vowel_units.len());
